@@ -568,6 +568,22 @@ class CallMixin:
             nfr.env[index_name] = SInt(idx)
         return nfr
 
+    def term_signature(self, terms, bound):
+        """(hash of the structure of the terms, their free constants other than `bound`): two comprehensions with the same
+        element / key / condition structure over the same free constants denote the same function application"""
+        import hashlib
+        from z3 import z3util
+        bids = {b.get_id() for b in bound}
+        free, seen = [], set()
+        for t in terms:
+            for v in z3util.get_vars(t):
+                if v.get_id() not in bids and v.get_id() not in seen and not str(v).startswith('q!'):
+                    seen.add(v.get_id())
+                    free.append(v)
+        free.sort(key=lambda v: str(v))
+        sig = hashlib.sha1(' | '.join(t.sexpr() for t in terms).encode()).hexdigest()[:10]
+        return sig, free
+
     def filter_comprehension(self, fr, node, gen, seq, kind, index_name):
         """[elt(i, x) for i, x in enumerate(seq) if cond(x)] as a fresh sequence r characterised by an order-preserving
         bijection between the kept indices of seq and the indices of r (witness functions idx / pos):
@@ -589,15 +605,13 @@ class CallMixin:
             # functions (as lambdas over the index), so the same comprehension in code and in a specification is
             # the same term
             q = z3.Int('q!filt')
-            condL = z3.Lambda([q], cond_at(q))
-            eltL = z3.Lambda([q], elt_at(q))
-            AB, AV = z3.ArraySort(I, B), z3.ArraySort(I, Val)
-            FILT = uf('FILT', AB, AV, I, SeqV)
-            IDX = uf('FILT_idx', AB, I, I, I)
-            POS = uf('FILT_pos', AB, I, I, I)
-            r = FILT(condL, eltL, n)
-            idx = lambda x: IDX(condL, n, x)
-            pos = lambda x: POS(condL, n, x)
+            sig, free = self.term_signature([cond_at(q), elt_at(q)], [q, seq.t])
+            fs = [v.sort() for v in free]
+            r = uf('FILT_' + sig, SeqV, *fs, SeqV)(seq.t, *free)
+            IDX = uf('FILT_idx_' + sig, SeqV, *fs, I, I)
+            POS = uf('FILT_pos_' + sig, SeqV, *fs, I, I)
+            idx = lambda x: IDX(seq.t, *free, x)
+            pos = lambda x: POS(seq.t, *free, x)
             key = ('filt-axioms', r.get_id())
             if key not in self.gcache:
                 self.gcache[key] = True
@@ -627,9 +641,6 @@ class CallMixin:
             it = it.seq
         seq = self.as_seq(it)
         n = z3.Length(seq.t)
-        has = z3.Const(self.fresh('dhas'), z3.ArraySort(Val, B))
-        get = z3.Const(self.fresh('dget'), z3.ArraySort(Val, Val))
-        w = z3.Function(self.fresh('dw'), Val, I)
         k, i = z3.Const(self.fresh('k'), Val), z3.Int(self.fresh('i'))
 
         def at(expr_node, kk, cond=False):
@@ -640,12 +651,22 @@ class CallMixin:
             return self.to_val(self.eval(nfr, expr_node))
         self.specmode += 1
         try:
-            self.assume(z3.ForAll([i], z3.Implies(z3.And(i >= 0, i < n, at(None, i, True)), z3.Select(has, at(node.key, i)))))
-            self.assume(z3.ForAll([k], z3.Implies(z3.Select(has, k), z3.And(
-                w(k) >= 0, w(k) < n, at(None, w(k), True), at(node.key, w(k)) == k, z3.Select(get, k) == at(node.value, w(k))))))
-            self.assume(z3.ForAll([k, i], z3.Implies(z3.And(z3.Select(has, k), i > w(k), i < n, at(None, i, True)), at(node.key, i) != k)))
-            # direct consequence of the line above, stated for the solver: the last write for the key of entry i is not before i
-            self.assume(z3.ForAll([i], z3.Implies(z3.And(i >= 0, i < n, at(None, i, True)), w(at(node.key, i)) >= i)))
+            # the dict is a term DICT_has/get(key, value, cond, n) of the key / value / condition functions (lambdas over
+            # the index): the same comprehension in code and in a specification is the same term
+            q = z3.Int('q!dict')
+            terms = [at(node.key, q), at(node.value, q), at(None, q, True)]
+            sig, free = self.term_signature(terms, [q, seq.t])
+            has = uf('DICT_has_' + sig, SeqV, *[v.sort() for v in free], z3.ArraySort(Val, B))(seq.t, *free)
+            get = uf('DICT_get_' + sig, SeqV, *[v.sort() for v in free], z3.ArraySort(Val, Val))(seq.t, *free)
+            W = uf('DICT_w_' + sig, SeqV, *[v.sort() for v in free], Val, I)
+            w = lambda kk: W(seq.t, *free, kk)
+            key_ = ('dict-axioms', has.get_id(), get.get_id())
+            if key_ not in self.gcache:
+                self.gcache[key_] = True
+                self.assume(z3.ForAll([i], z3.Implies(z3.And(i >= 0, i < n, at(None, i, True)), z3.And(z3.Select(has, at(node.key, i)), w(at(node.key, i)) >= i))))
+                self.assume(z3.ForAll([k], z3.Implies(z3.Select(has, k), z3.And(
+                    w(k) >= 0, w(k) < n, at(None, w(k), True), at(node.key, w(k)) == k, z3.Select(get, k) == at(node.value, w(k))))))
+                self.assume(z3.ForAll([k, i], z3.Implies(z3.And(z3.Select(has, k), i > w(k), i < n, at(None, i, True)), at(node.key, i) != k)))
         finally:
             self.specmode -= 1
         return SDict(has, get)
